@@ -1,7 +1,8 @@
 (* C20 — proofs about the model of ffi.new (C20/Model.v). *)
 From Coq Require Import ZArith Lia Bool List.
 Import ListNotations.
-From Cffi Require Import C20.Model.
+From Cffi Require C15.Model.
+From Cffi Require Import C20.Model C20.Leaves.
 Open Scope Z_scope.
 
 (* ------------------------------------------------------------------ new = zero block + assignment *)
@@ -124,46 +125,8 @@ Lemma write_safe_in lo hi off bs m :
   lo <= off -> 0 <= off -> off + mlen bs <= hi -> hi <= mlen m -> safe lo hi (write off bs m) m.
 Proof. intros. apply (safe_weaken off (off + mlen bs)); [lia|lia|]. apply write_safe; lia. Qed.
 
-Lemma le_bytes_len n z : 0 <= n -> mlen (le_bytes n z) = n.
-Proof. intros. unfold le_bytes, mlen. rewrite map_length, seq_length. lia. Qed.
-
 Lemma firstn_mlen {A} k (d : list A) : 0 <= k -> mlen (firstn (Z.to_nat k) d) <= k.
 Proof. intros. unfold mlen. rewrite firstn_length. lia. Qed.
-
-Lemma conv_prim_len k s v bs : 0 < s -> conv_prim k s v = Ok bs -> mlen bs = s.
-Proof.
-  intros Hs. unfold conv_prim.
-  destruct k, v; try discriminate;
-    repeat match goal with
-           | |- context [match ?l with [] => _ | _ :: _ => _ end] => destruct l
-           | |- context [if ?c then _ else _] => destruct c eqn:?
-           end; try discriminate; intros E; inversion E;
-    try (apply le_bytes_len; lia); try (subst bs; apply Z.eqb_eq; assumption).
-Qed.
-
-Lemma conv_prim_err k s v e : conv_prim k s v = Err e -> e <> SegV.
-Proof.
-  unfold conv_prim.
-  destruct k, v; try (intros E; inversion E; discriminate);
-    repeat match goal with
-           | |- context [match ?l with [] => _ | _ :: _ => _ end] => destruct l
-           | |- context [if ?c then _ else _] => destruct c
-           end; intros E; inversion E; discriminate.
-Qed.
-
-Lemma conv_bitfield_len k s sh b v old bs : 0 < s -> conv_bitfield k s sh b v old = Ok bs -> mlen bs = s.
-Proof.
-  intros Hs. unfold conv_bitfield. destruct v; try discriminate.
-  destruct (_ || _); [discriminate|]. destruct k; cbv zeta beta iota;
-    (destruct (_ || _); [discriminate|]; intros E; inversion E; apply le_bytes_len; lia).
-Qed.
-
-Lemma conv_bitfield_err k s sh b v old e : conv_bitfield k s sh b v old = Err e -> e <> SegV.
-Proof.
-  unfold conv_bitfield. destruct v; try (intros E; inversion E; discriminate).
-  destruct (_ || _); [intros E; inversion E; discriminate|]. destruct k; cbv zeta beta iota;
-    (destruct (_ || _); intros E; inversion E; discriminate).
-Qed.
 
 Lemma gnal_err isz x e : get_new_array_length isz x = Err e -> e <> SegV.
 Proof.
@@ -172,12 +135,15 @@ Proof.
   destruct (SSIZE_MAX <? z); intros E; inversion E; discriminate.
 Qed.
 
+Lemma ok_pair_inj {A B} (a a' : A) (b b' : B) : @Ok (A * B) (a, b) = Ok (a', b') -> a = a' /\ b = b'.
+Proof. intros H; inversion H; auto. Qed.
+
 Lemma gnal_nonneg isz x cap b : get_new_array_length isz x = Ok (cap, b) -> 0 <= cap.
 Proof.
   unfold get_new_array_length. destruct x; try discriminate; intros E.
   - destruct (Z.ltb_spec z 0); [discriminate|]. destruct (SSIZE_MAX <? z); [discriminate|]. inversion E. lia.
-  - inversion E. pose proof (mlen_nonneg b0). lia.
-  - inversion E. pose proof (mlen_nonneg (str_units isz cps)). lia.
+  - apply ok_pair_inj in E; destruct E as (E1 & E2). pose proof (new_array_length_pos (ety_of isz) (C15.Model.PBytes b0)). lia.
+  - apply ok_pair_inj in E; destruct E as (E1 & E2). pose proof (new_array_length_pos (ety_of isz) (C15.Model.PStr cps)). lia.
   - inversion E. apply mlen_nonneg.
 Qed.
 
@@ -229,25 +195,40 @@ Proof.
   - (* bytes *)
     destruct (one_byte_item item) eqn:H1; [|apply safe_err; discriminate].
     rewrite (one_byte_size _ H1) in *.
-    destruct ((0 <=? len) && (len <? mlen b)) eqn:Hlong; [apply safe_err; discriminate|].
+    apply safe_bind.
+    { intros e. destruct (C15.Model.convert_array _ _ _) eqn:Ec; [discriminate|].
+      cbn. intros E; inversion E. eapply c15_convert_err; exact Ec. }
+    intros src Ec. destruct (C15.Model.convert_array _ _ _) as [us|e] eqn:Ecv; [|discriminate].
+    cbn in Ec. inversion Ec; subst us. clear Ec.
+    apply c15_convert_len in Ecv. cbv zeta in Ecv. destruct Ecv as (Hlong & Hlen).
     match goal with |- context [if ?c then Err ValueError else _] => destruct c end;
       [apply safe_err; discriminate|].
-    apply write_safe_in; try lia. pose proof (mlen_nonneg b).
-    destruct (Z.eqb_spec (mlen b) len) as [E|NE].
+    apply write_safe_in; try lia. rewrite Hlen.
+    set (n := C15.Model.new_array_length C15.Model.E8 (C15.Model.PBytes b) - 1) in *.
+    assert (Hn : 0 <= n) by (pose proof (new_array_length_pos C15.Model.E8 (C15.Model.PBytes b)); lia).
+    destruct (Z.eqb_spec n len) as [E|NE].
     + destruct (Z.leb_spec 0 len); [rewrite <- (Hfix ltac:(lia)) in E; lia|lia].
-    + rewrite mlen_snoc. destruct (Z.leb_spec 0 len) as [Hl|Hl].
-      * rewrite (Hfix Hl) in *. destruct (Z.ltb_spec len (mlen b)); [discriminate|]. lia.
-      * destruct (Hflex Hl) as (bb & E). cbn in E. inversion E. lia.
+    + destruct (Z.leb_spec 0 len) as [Hl|Hl].
+      * rewrite (Hfix Hl) in *. destruct (Z.ltb_spec len n); [discriminate|]. lia.
+      * destruct (Hflex Hl) as (bb & E). unfold get_new_array_length in E. apply ok_pair_inj in E; destruct E as (E1 & E2).
+        change (ety_of 1) with C15.Model.E8 in *. lia.
   - (* str *)
     destruct (wide_char_item item) eqn:H1; [|apply safe_err; discriminate].
-    cbv zeta. set (u := str_units (lsize item) c) in *.
-    destruct ((0 <=? len) && (len <? mlen u)) eqn:Hlong; [apply safe_err; discriminate|].
-    apply write_safe_in; try lia. rewrite flat_map_le_len by lia. pose proof (mlen_nonneg u).
-    destruct (Z.eqb_spec (mlen u) len) as [E|NE].
+    cbv zeta.
+    apply safe_bind.
+    { intros e. destruct (C15.Model.convert_array _ _ _) eqn:Ec; [discriminate|].
+      cbn. intros E; inversion E. eapply c15_convert_err; exact Ec. }
+    intros src Ec. destruct (C15.Model.convert_array _ _ _) as [us|e] eqn:Ecv; [|discriminate].
+    cbn in Ec. inversion Ec; subst us. clear Ec.
+    apply c15_convert_len in Ecv. cbv zeta in Ecv. destruct Ecv as (Hlong & Hlen).
+    apply write_safe_in; try lia. rewrite flat_map_le_len by lia. rewrite Hlen.
+    set (n := C15.Model.new_array_length (ety_of (lsize item)) (C15.Model.PStr c) - 1) in *.
+    assert (Hn : 0 <= n) by (pose proof (new_array_length_pos (ety_of (lsize item)) (C15.Model.PStr c)); lia).
+    destruct (Z.eqb_spec n len) as [E|NE].
     + destruct (Z.leb_spec 0 len); [rewrite <- (Hfix ltac:(lia)) in E; nia|lia].
-    + rewrite mlen_snoc. destruct (Z.leb_spec 0 len) as [Hl|Hl].
-      * rewrite (Hfix Hl) in *. destruct (Z.ltb_spec len (mlen u)); [discriminate|]. nia.
-      * destruct (Hflex Hl) as (bb & E). unfold get_new_array_length in E. fold u in E. inversion E. nia.
+    + destruct (Z.leb_spec 0 len) as [Hl|Hl].
+      * rewrite (Hfix Hl) in *. destruct (Z.ltb_spec len n); [discriminate|]. nia.
+      * destruct (Hflex Hl) as (bb & E). unfold get_new_array_length in E. apply ok_pair_inj in E; destruct E as (E1 & E2). nia.
   - (* list / tuple *)
     destruct ((0 <=? len) && (len <? mlen l)) eqn:Hlong; [apply safe_err; discriminate|].
     pose proof (mlen_nonneg l).
@@ -271,7 +252,8 @@ Definition field_wf (size : Z) (var : bool) (f : lfield) : Prop :=
   wf_type (lf_type f) = true /\ 0 <= lf_off f /\
   (if is_flex (lf_type f) then lf_off f <= size /\ var = true /\ lf_shift f < 0
    else lf_off f + lsize (lf_type f) <= size) /\
-  (0 <= lf_shift f -> exists k s, lf_type f = LPrim k s) /\
+  (0 <= lf_shift f -> exists k s, lf_type f = LPrim k s /\
+                       0 < lf_bits f /\ lf_shift f + lf_bits f <= 8 * s /\ s <= 8) /\
   (agg_var (lf_type f) = true -> var = true).
 
 Lemma wf_fields size var (fs : list (ltype * Z * Z * Z * Z)) :
@@ -282,7 +264,12 @@ Lemma wf_fields size var (fs : list (ltype * Z * Z * Z * Z)) :
          wf_type ft && (0 <=? off) &&
          (if is_flex ft then (off <=? size) && var && (shift <? 0)
           else off + lsize ft <=? size) &&
-         (if 0 <=? shift then match ft with LPrim _ _ => true | _ => false end else true) &&
+         (if 0 <=? shift
+          then match ft with
+               | LPrim _ s => (0 <? bits) && (shift + bits <=? 8 * s) && (s <=? 8)
+               | _ => false
+               end
+          else true) &&
          (if agg_var ft then var else true) &&
          all fs'
      end) fs = true ->
@@ -291,13 +278,15 @@ Proof.
   induction fs as [|[[[[ft off] shift] bits] flags] fs IH]; intros H; [constructor|].
   rewrite !andb_true_iff in H. destruct H as (((((H1 & H2) & H3) & H4) & H5) & H6).
   constructor; [|apply IH; exact H6].
-  unfold field_wf, lf_type, lf_off, lf_shift; cbn [fst snd].
+  unfold field_wf, lf_type, lf_off, lf_shift, lf_bits; cbn [fst snd].
   split; [exact H1|]. split; [apply Z.leb_le; exact H2|]. split; [|split].
   - destruct (is_flex ft).
     + rewrite !andb_true_iff in H3. destruct H3 as ((A & B) & C).
       split; [apply Z.leb_le; exact A|]. split; [exact B|apply Z.ltb_lt; exact C].
     + apply Z.leb_le. exact H3.
-  - intros Hs. destruct (Z.leb_spec 0 shift); [|lia]. destruct ft; try discriminate. eauto.
+  - intros Hs. destruct (Z.leb_spec 0 shift); [|lia]. destruct ft as [k s| |]; try discriminate.
+    rewrite !andb_true_iff in H4. destruct H4 as ((A & B) & C).
+    exists k, s. repeat split; [apply Z.ltb_lt; exact A|apply Z.leb_le; exact B|apply Z.leb_le; exact C].
   - intros Hv. rewrite Hv in H5. exact H5.
 Qed.
 
@@ -472,13 +461,14 @@ Proof.
   - intros Hfl n Hn Hb. rewrite Hfl in *.
     assert (Hsz : 0 <= lsize (lf_type fld)) by (apply wf_nonflex_size; assumption).
     destruct (Z.leb_spec 0 (lf_shift fld)) as [Hs|Hs].
-    + destruct (Hbf Hs) as (k & s & Et). rewrite Et in *. cbn [need lsize] in Hn. inversion Hn; subst n.
+    + destruct (Hbf Hs) as (k & s & Et & Hb0 & Hfit & Hs8). rewrite Et in *. cbn [need lsize] in Hn. inversion Hn; subst n.
       cbn [wf_type] in Hwf. apply Z.ltb_lt in Hwf.
-      destruct (64 <=? lf_bits fld).
+      destruct (Z.leb_spec 64 (lf_bits fld)).
       * apply (IHf f ltac:(lia) (LPrim k s) _ x m s); auto; try lia. cbn. apply Z.ltb_lt. exact Hwf.
       * apply safe_bind.
-        -- intros e. apply conv_bitfield_err.
-        -- intros bs E. pose proof (conv_bitfield_len _ _ _ _ _ _ _ Hwf E). apply write_safe_in; lia.
+        -- intros e. apply conv_bitfield_err; lia.
+        -- intros bs E. apply conv_bitfield_len in E; [|lia|lia|lia].
+           apply write_safe_in; lia.
     + apply (IHf f ltac:(lia) (lf_type fld) _ x m n); auto; lia.
 Qed.
 
@@ -626,7 +616,7 @@ Proof.
     + (* primitive *)
       cbn in Hneed. inversion Hneed; subst n. cbn [wf_type] in Hwf. apply Z.ltb_lt in Hwf.
       apply safe_bind; [intros e; apply conv_prim_err|].
-      intros bs E. pose proof (conv_prim_len _ _ _ _ Hwf E). apply write_safe_in; lia.
+      intros bs E. pose proof (conv_prim_len _ _ _ _ _ Hwf E). apply write_safe_in; lia.
     + (* array of known length *)
       cbn [lsize] in Hsz. destruct (Z.ltb_spec len 0); [lia|].
       cbn [need lsize] in Hneed. destruct (Z.ltb_spec len 0); [lia|]. inversion Hneed; subst n.
